@@ -61,6 +61,7 @@ var consts = []constSpec{
 	{"pkg/v2/ocr.go", "ReportKeysLimit", "v2ReportKeysLimit"},
 	{"pkg/v2/ocr.go", "MaxObservationLength", "v2MaxObservationLength"},
 	{"tools/simulator/simulate/chain/history.go", "defaultHistoryDepth", "simHistoryDepth"},
+	{"tools/simulator/simulate/ocr/report.go", "ReportTrackerBlockRange", "simReportTrackerBlockRange"},
 }
 
 // sites whose printed source is recorded (function bodies' call arguments and
@@ -94,6 +95,64 @@ var sites = []siteSpec{
 	{"pkg/v2/ocr.go", "ocrPlugin.Report"},
 	{"pkg/v2/ocr.go", "ocrPlugin.Observation"},
 	{"tools/simulator/util/sort.go", "SortedKeyMap.Keys"},
+	{"pkg/v3/coordinator/coordinator.go", "coordinator.FilterProposals"},
+	{"pkg/v3/coordinator/coordinator.go", "coordinator.PreProcess"},
+	{"pkg/v3/coordinator/coordinator.go", "coordinator.FilterResults"},
+	{"pkg/v3/coordinator/coordinator.go", "coordinator.visitedID"},
+	{"pkg/v3/coordinator/coordinator.go", "coordinator.run"},
+	{"pkg/util/cache.go", "Cache.ClearExpired"},
+	{"pkg/v3/plugin/hooks/add_from_staging.go", "AddFromStagingHook.RunHook"},
+	{"pkg/v3/plugin/hooks/add_from_staging.go", "AddFromStagingHook.addByPercentageExceeded"},
+	{"pkg/v3/plugin/hooks/add_log_proposals.go", "AddLogProposalsHook.RunHook"},
+	{"pkg/v3/plugin/hooks/add_conditional_proposals.go", "AddConditionalProposalsHook.RunHook"},
+	{"pkg/v3/plugin/hooks/add_block_history.go", "AddBlockHistoryHook.RunHook"},
+	{"pkg/v3/observation.go", "validateAutomationObservation"},
+	{"pkg/v3/observation.go", "validateCheckResult"},
+	{"pkg/v3/observation.go", "validateUpkeepProposal"},
+	{"pkg/v3/observation.go", "validateTriggerExtensionType"},
+	{"pkg/v3/observation.go", "DecodeAutomationObservation"},
+	{"pkg/v3/observation.go", "unmarshalPeerMessage"},
+	{"pkg/v3/outcome.go", "validateAutomationOutcome"},
+	{"pkg/v3/outcome.go", "DecodeAutomationOutcome"},
+	{"pkg/v2/shuffle.go", "filterAndDedupe"},
+	{"pkg/v2/observation.go", "ObservationsToUpkeepKeys"},
+	{"pkg/v2/observation.go", "Observation.Validate"},
+	{"pkg/v2/encoding/basic.go", "BasicEncoder.GetMedian"},
+	{"pkg/v2/encoding/basic.go", "BasicEncoder.After"},
+	{"pkg/v2/encoding/basic.go", "BasicEncoder.Increment"},
+	{"pkg/v2/encoding/basic.go", "BasicEncoder.SplitUpkeepKey"},
+	{"pkg/v2/encode.go", "limitedLengthEncode"},
+	{"pkg/v2/observer/polling/observer.go", "PollingObserver.Observe"},
+	{"pkg/v2/observer/polling/observer.go", "PollingObserver.processLatestHead"},
+	{"pkg/v2/coordinator/coordinator.go", "idBlocker.shouldUpdate"},
+	{"pkg/v2/coordinator/coordinator.go", "reportCoordinator.checkLogs"},
+	{"pkg/v2/coordinator/coordinator.go", "reportCoordinator.IsPending"},
+	{"pkg/v2/coordinator/coordinator.go", "reportCoordinator.Accept"},
+	{"pkg/v2/coordinator/coordinator.go", "reportCoordinator.updateIdBlock"},
+	{"pkg/v2/coordinator/coordinator.go", "NewReportCoordinator"},
+	{"pkg/v3/stores/retry_queue.go", "retryQueueRecord.elapsed"},
+	{"pkg/v3/stores/retry_queue.go", "retryQueueRecord.expired"},
+	{"pkg/v3/postprocessors/retry.go", "retryablePostProcessor.PostProcess"},
+	{"pkg/v3/postprocessors/ineligible.go", "ineligiblePostProcessor.PostProcess"},
+	{"pkg/v3/postprocessors/metadata.go", "addProposalToMetadataStore.PostProcess"},
+	{"pkg/v3/observer.go", "Observer.Process"},
+	{"pkg/v3/stores/result_store.go", "resultStore.viewResults"},
+	{"pkg/v3/stores/result_store.go", "resultStore.gc"},
+	{"pkg/v3/stores/result_store.go", "resultStore.Start"},
+	{"pkg/v3/postprocessors/eligible.go", "eligiblePostProcessor.PostProcess"},
+	{"pkg/v3/plugin/hooks/remove_from_staging.go", "RemoveFromStagingHook.RunHook"},
+	{"pkg/v3/runner/runner.go", "Runner.parallelCheck"},
+	{"pkg/v3/runner/runner.go", "Runner.wrapAggregate"},
+	{"pkg/util/cache.go", "Cache.Get"},
+	{"pkg/util/cache.go", "Cache.Set"},
+	{"internal/util/array.go", "Unflatten"},
+	{"tools/simulator/util/sort.go", "SortedKeyMap.Set"},
+	{"tools/simulator/simulate/loader/ocr3transmit.go", "OCR3TransmitLoader.Transmit"},
+	{"tools/simulator/simulate/ocr/report.go", "createPluginTransmitEvents"},
+	{"tools/simulator/simulate/ocr/report.go", "ReportTracker.GetLatestEvents"},
+	{"tools/simulator/simulate/ocr/report.go", "ReportTracker.updateBlock"},
+	{"tools/simulator/simulate/chain/history.go", "BlockHistoryTracker.run"},
+	{"tools/simulator/simulate/chain/history.go", "BlockHistoryTracker.broadcast"},
 	{"pkg/v3/stores/metadata_store.go", "orderedMap.Keys"},
 	{"pkg/v3/stores/metadata_store.go", "orderedMap.Delete"},
 	{"pkg/v3/stores/metadata_store.go", "orderedMap.Add"},
@@ -123,6 +182,7 @@ var locks = []lockSpec{
 	{"pkg/v3/stores/metadata_store.go", "metadataStore", "conditionalMutex", []string{"conditionalProposals"}},
 	{"pkg/v3/stores/metadata_store.go", "metadataStore", "logRecoveryMutex", []string{"logRecoveryProposals"}},
 	{"pkg/util/cache.go", "Cache", "mu", []string{"data"}},
+	{"tools/simulator/simulate/loader/ocr3transmit.go", "OCR3TransmitLoader", "mu", []string{"transmitted", "queue"}},
 	{"pkg/v3/coordinator/coordinator.go", "coordinator", "mu", nil},
 }
 
